@@ -39,6 +39,9 @@ func catalogue(form string) []corruption {
 			out = append(out, corruption{"sam_missing_fields", "sam", p, ""})
 		}
 	}
+	windows := func() {
+		out = append(out, corruption{"window_start_zero", "", "", ""}, corruption{"window_start_beyond", "", "", ""}, corruption{"window_end_beyond", "", "", ""}, corruption{"window_start_gt_end", "", "", ""})
+	}
 	switch form {
 	case "toma":
 		samC()
@@ -47,19 +50,26 @@ func catalogue(form string) []corruption {
 	case "topa-stdout", "topa-dir":
 		samC()
 		out = append(out, corruption{"empty_file", "ref", "", ""}, corruption{"two_records", "ref", "", ""}, corruption{"bad_symbol", "ref", "first", ""},
-			corruption{"window_start_beyond", "", "", ""}, corruption{"window_end_beyond", "", "", ""}, corruption{"window_start_gt_end", "", "", ""})
+			corruption{"window_start_beyond", "", "", ""}, corruption{"window_end_beyond", "", "", ""}, corruption{"window_start_gt_end", "", "", ""},
+			// the reference given with --reference is not the one the reads were aligned to (its length differs from @SQ LN)
+			corruption{"ref_width", "ref", "", ""}, corruption{"ref_width", "ref", "narrow", ""})
 	case "samvariants":
 		samC()
-		out = append(out, corruption{"empty_file", "ref", "", ""}, corruption{"two_records", "ref", "", ""}, corruption{"bad_symbol", "ref", "first", ""})
+		out = append(out, corruption{"empty_file", "ref", "", ""}, corruption{"two_records", "ref", "", ""}, corruption{"bad_symbol", "ref", "first", ""},
+			corruption{"ref_width", "ref", "", ""}, corruption{"ref_width", "ref", "narrow", ""})
+		windows()
 	case "variants", "variants-stdin":
 		fasta("msa")
 		out = append(out, corruption{"anno_suffix_unknown", "", "", ""})
+		windows()
 	case "samvariants-annoref":
 		samC()
 		out = append(out, corruption{"two_records", "anno", "", ""}, corruption{"bad_symbol", "anno", "", ""})
+		windows()
 	case "variants-annoref":
 		fasta("msa")
 		out = append(out, corruption{"anno_suffix_unknown", "", "", ""}, corruption{"ref_width", "msa", "", ""}, corruption{"ref_width", "msa", "narrow", ""}, corruption{"two_records", "anno", "", ""}, corruption{"bad_symbol", "anno", "", ""})
+		windows()
 	case "snps", "snps-agg", "updownlist":
 		fasta("query")
 		out = append(out, corruption{"empty_file", "ref", "", ""}, corruption{"bad_symbol", "ref", "first", ""}, corruption{"ref_width", "ref", "", ""})
@@ -98,11 +108,18 @@ func catalogue(form string) []corruption {
 		out = append(out, corruption{"cli_window_start_gt_end", "", "", ""}, corruption{"cli_missing_file", "", "", ""}, corruption{"empty_file", "cli", "", ""},
 			corruption{"cli_window_start_zero", "", "", ""}, corruption{"cli_window_end_zero", "", "", ""}, corruption{"cli_window_end_beyond", "", "", ""})
 	}
+	// an I/O error while reading any of the command's inputs, early, half-way and near the end of the file: what was read
+	// until then must not be taken for the whole input
+	for _, f := range formInputs[form] {
+		for _, p := range pos {
+			out = append(out, corruption{"read_error", f, p, ""})
+		}
+	}
 	if strings.HasPrefix(form, "cli-") {
 		// every corruption of an input file of the library form, through the real command line as well (the command
 		// layer opens the files, picks readers by file name and forwards the options)
 		for _, k := range catalogue(strings.TrimPrefix(form, "cli-")) {
-			if k.File != "" {
+			if k.File != "" && k.Kind != "read_error" {
 				k.Via = "pkg"
 				out = append(out, k)
 			}
@@ -118,6 +135,16 @@ func argIndex(a []string, flag string) int {
 		}
 	}
 	return -1
+}
+
+// formInputs names the input streams of each library form.
+var formInputs = map[string][]string{
+	"toma": {"sam"}, "topa-stdout": {"sam", "ref"}, "topa-dir": {"sam", "ref"}, "indels": {"sam"},
+	"samvariants": {"sam", "ref", "anno"}, "samvariants-annoref": {"sam", "anno"},
+	"variants": {"msa", "anno"}, "variants-stdin": {"msa", "anno"}, "variants-annoref": {"msa", "anno"},
+	"snps": {"ref", "query"}, "snps-agg": {"ref", "query"}, "updownlist": {"ref", "query"},
+	"closest": {"query", "target"}, "closestn": {"query", "target"},
+	"topranking": {"query", "target", "ref"}, "topranking-csv": {"query", "target"},
 }
 
 var c18Forms = append(append([]string{}, allCmds...), "topranking-csv", "cli-variants", "cli-samvariants", "cli-topranking", "cli-toma", "cli-topa-stdout", "indels", "cli-indels", "cli-snps", "cli-closest", "cli-closestn", "cli-updownlist")
@@ -203,6 +230,21 @@ func applyCorruption(c *Case, k corruption, r *Rand) *Case {
 		i := pos[r.Intn(len(pos))]
 		out.Files["anno"] = text[:i] + r.Pick("x", "j", "z", "e", "X", "J") + text[i+1:]
 		return &out
+	}
+	anyRefLen := func() int {
+		if L := samRefLen(c); L > 0 {
+			return L
+		}
+		if L := refLen(); L > 0 {
+			return L
+		}
+		if recs, _ := parseFasta(c.Files["msa"]); len(recs) > 0 { // (generated references have no gaps)
+			return len(strings.Join(recs[0].seq, ""))
+		}
+		return 0
+	}
+	if k.Kind == "read_error" {
+		return &out // the case is unchanged: the fault sits in the run configurations (genC18)
 	}
 	switch k.Kind {
 	case "short_row", "long_row", "bad_symbol", "empty_row":
@@ -291,10 +333,17 @@ func applyCorruption(c *Case, k corruption, r *Rand) *Case {
 			out.Files[k.File] = renderFasta(recs, nl)
 		} else {
 			recs, nl := parseFasta(text)
-			if len(recs) != 1 {
+			if len(recs) != 1 || len(recs[0].seq) == 0 {
 				return nil
 			}
-			recs[0].seq[len(recs[0].seq)-1] += "A"
+			if last := len(recs[0].seq) - 1; k.Pos == "narrow" {
+				if len(recs[0].seq[last]) < 2 {
+					return nil
+				}
+				recs[0].seq[last] = recs[0].seq[last][:len(recs[0].seq[last])-1]
+			} else {
+				recs[0].seq[last] += "A"
+			}
 			out.Files[k.File] = renderFasta(recs, nl)
 		}
 	case "width_mismatch":
@@ -339,22 +388,19 @@ func applyCorruption(c *Case, k corruption, r *Rand) *Case {
 	case "window_start_zero":
 		out.Opts.Start, out.Opts.End = 0, -1
 	case "window_start_beyond":
-		L := samRefLen(c)
+		L := anyRefLen()
 		if L == 0 {
-			L = refLen()
+			return nil
 		}
 		out.Opts.Start, out.Opts.End = L+1, -1
 	case "window_end_beyond":
-		L := samRefLen(c)
+		L := anyRefLen()
 		if L == 0 {
-			L = refLen()
+			return nil
 		}
 		out.Opts.Start, out.Opts.End = -1, L+1
 	case "window_start_gt_end":
-		L := samRefLen(c)
-		if L == 0 {
-			L = refLen()
-		}
+		L := anyRefLen()
 		if L < 2 {
 			return nil
 		}
@@ -626,6 +672,28 @@ func genC18(r *Rand, tier string, ord int) *Trial {
 	b := P0()
 	b.Explicit = true
 	t.Runs = append([]RunCfg{b, b}, genRunCfgs(r, n)...)
+	if k.Kind == "read_error" {
+		n := len(base.Files[k.File])
+		if n == 0 {
+			t.Params["inapplicable"] = "1"
+			return t
+		}
+		for i := 1; i < len(t.Runs); i++ {
+			at := 0
+			switch k.Pos {
+			case "first":
+				at = r.Intn(minInt(n, 12))
+			case "middle":
+				at = n/4 + r.Intn(n/2+1)
+			default:
+				at = n - 1 - r.Intn(minInt(n, 4))
+			}
+			if at >= n {
+				at = n - 1
+			}
+			t.Runs[i].Faults = []Fault{{Kind: "read_error", Dest: k.File, K: at}}
+		}
+	}
 	cb, _ := json.Marshal(cor)
 	t.Params["corrupted"] = string(cb)
 	return t
@@ -684,6 +752,10 @@ func checkC18(t *Trial, ctx *Ctx) *Failure {
 	ctx.Nontrivial()
 	for i := 1; i < len(t.Runs); i++ {
 		res := ctx.Run(t, i, cor)
+		if t.Params["corruption"] == "read_error" && res.Fired["read_error"] == 0 {
+			ctx.Probe("read_fault_not_reached", 1) // the command did not read that far (it need not read everything)
+			continue
+		}
 		where := fmt.Sprintf("%s,%s@%s:%s", t.Params["form"], t.Params["corruption"], t.Params["file"], t.Params["pos"])
 		switch res.Out.Kind {
 		case simrt.Panicked:
